@@ -15,6 +15,7 @@
 *  Dependencies
 *********************************************************/
 #include "../common/zstd_deps.h"   /* ZSTD_memcpy, ZSTD_memmove, ZSTD_memset */
+#include "../common/zstd_verif.h"  /* ZSTD_VERIF_PROBE, ZSTD_VERIF_COIN : inert unless ZSTD_VERIF_SIM */
 #include "../common/compiler.h"    /* prefetch */
 #include "../common/cpu.h"         /* bmi2 */
 #include "../common/mem.h"         /* low level memory routines */
@@ -2165,16 +2166,20 @@ ZSTD_decompressBlock_internal(ZSTD_DCtx* dctx,
         {
 #endif
 #ifndef ZSTD_FORCE_DECOMPRESS_SEQUENCES_SHORT
+            ZSTD_VERIF_PROBE(ZSTD_VP_seqDecoderLong);
             return ZSTD_decompressSequencesLong(dctx, dst, dstCapacity, ip, srcSize, nbSeq, isLongOffset);
 #endif
         }
 
 #ifndef ZSTD_FORCE_DECOMPRESS_SEQUENCES_LONG
         /* else */
-        if (dctx->litBufferLocation == ZSTD_split)
+        if (dctx->litBufferLocation == ZSTD_split) {
+            ZSTD_VERIF_PROBE(ZSTD_VP_seqDecoderSplitLit);
             return ZSTD_decompressSequencesSplitLitBuffer(dctx, dst, dstCapacity, ip, srcSize, nbSeq, isLongOffset);
-        else
+        } else {
+            ZSTD_VERIF_PROBE(ZSTD_VP_seqDecoderShort);
             return ZSTD_decompressSequences(dctx, dst, dstCapacity, ip, srcSize, nbSeq, isLongOffset);
+        }
 #endif
     }
 }
